@@ -30,6 +30,7 @@ func runC09(c *an.Ctx) {
 	// weight are reported together and no hook is still running when the transition is answered
 	c.As(map[string]string{"R08f": "R09f"}, func() { r08f(c) })
 	r09g(c)
+	whoMayCancel(c, "R09h")
 }
 
 // R09g: a hook task counts as failed whenever it did not exit with code 0 - also when it was terminated by a signal
